@@ -487,10 +487,16 @@ class Prog:
             return True
         return False
 
-    def run(self, n):
+    def run(self, n, drop_all=False):
         for _ in range(n):
             if not self.step():
                 break
+        if drop_all:
+            # let go of everything at the end: the actor's fate is then decided by who else holds it
+            for x, k in sorted(self.h.items()):
+                if k != "baddr":
+                    self.ops.append({"op": "drop", "h": x})
+            self.h = {x: k for x, k in self.h.items() if k == "baddr"}
         return self.ops
 
 
